@@ -474,3 +474,495 @@ Proof.
         unfold kind_fields_ok; cbn; fold p; rewrite Edev;
         unfold ref_major, ref_minor; now rewrite <- dev_major_arith, <- dev_minor_arith, !N.eqb_refl.
 Qed.
+
+(* ---------- symbolic modes on the bits they touch / do not touch ---------- *)
+Definition tb (cs : list (N * bool * N)) (i : N) : bool :=
+  existsb (fun cl => N.testbit (clause_mask cl) i) cs.
+
+Lemma touched_bits cs : forall a i,
+  N.testbit (fold_left (fun (a : N) (cl : N * bool * N) => N.lor a (clause_mask cl)) cs a) i
+  = N.testbit a i || tb cs i.
+Proof.
+  induction cs as [|cl cs IH]; intros a i; cbn [fold_left tb existsb]; [now rewrite orb_false_r|].
+  rewrite IH, N.lor_spec. fold (tb cs i). now rewrite orb_assoc.
+Qed.
+
+Definition cstep (q : N) (cl : N * bool * N) : N :=
+  if snd (fst cl) then N.lor q (clause_mask cl) else N.ldiff q (clause_mask cl).
+Lemma chmod_ref_cons cl cs q : chmod_ref (cl :: cs) q = chmod_ref cs (cstep q cl).
+Proof. reflexivity. Qed.
+
+Lemma chmod_untouched cs : forall q i, tb cs i = false -> N.testbit (chmod_ref cs q) i = N.testbit q i.
+Proof.
+  induction cs as [|cl cs IH]; intros q i H; [reflexivity|].
+  cbn [tb existsb] in H. apply orb_false_iff in H as [H1 H2]. rewrite chmod_ref_cons, IH by assumption.
+  unfold cstep. destruct (snd (fst cl)).
+  - now rewrite N.lor_spec, H1, orb_false_r.
+  - now rewrite N.ldiff_spec, H1, andb_true_r.
+Qed.
+
+Lemma chmod_touched cs : forall q q' i, tb cs i = true ->
+  N.testbit (chmod_ref cs q) i = N.testbit (chmod_ref cs q') i.
+Proof.
+  induction cs as [|cl cs IH]; intros q q' i H; [discriminate|].
+  rewrite !chmod_ref_cons. cbn [tb existsb] in H. fold (tb cs i) in H.
+  destruct (tb cs i) eqn:E; [now apply IH|].
+  rewrite orb_false_r in H. rewrite !chmod_untouched by assumption.
+  unfold cstep. destruct (snd (fst cl)).
+  - now rewrite !N.lor_spec, H, !orb_true_r.
+  - now rewrite !N.ldiff_spec, H, !andb_false_r.
+Qed.
+
+Lemma usable_bits tch ty x :
+  usable_outside tch ty x = true <->
+  (forall i, N.testbit (required_bits ty) i = true -> N.testbit tch i = false -> N.testbit x i = true)
+  /\ (forall i, N.testbit (forbidden_bits ty) i = true -> N.testbit tch i = false -> N.testbit x i = false).
+Proof.
+  unfold usable_outside. rewrite andb_true_iff, !N.eqb_eq. split.
+  - intros [H1 H2]. split; intros i Hr Ht.
+    + assert (B : N.testbit (N.land (N.ldiff (required_bits ty) tch) x) i
+                  = N.testbit (N.ldiff (required_bits ty) tch) i) by now rewrite H1.
+      rewrite N.land_spec, N.ldiff_spec, Hr, Ht in B. cbn in B. exact B.
+    + assert (B : N.testbit (N.land (N.ldiff (forbidden_bits ty) tch) x) i = false)
+        by (rewrite H2; apply N.bits_0).
+      rewrite N.land_spec, N.ldiff_spec, Hr, Ht in B. cbn in B. exact B.
+  - intros [H1 H2]. split; apply N.bits_inj; intros i.
+    + rewrite N.land_spec, N.ldiff_spec.
+      destruct (N.testbit (required_bits ty) i) eqn:Er; [|reflexivity].
+      destruct (N.testbit tch i) eqn:Et; [reflexivity|]. cbn. rewrite (H1 i Er Et). reflexivity.
+    + rewrite N.land_spec, N.ldiff_spec, N.bits_0.
+      destruct (N.testbit (forbidden_bits ty) i) eqn:Er; [|reflexivity].
+      destruct (N.testbit tch i) eqn:Et; [reflexivity|]. cbn. apply (H2 i Er Et).
+Qed.
+
+Lemma ldiff_sub12 c : sub12 c -> N.ldiff c 4095 = 0.
+Proof.
+  intros H. apply N.bits_inj_0. intros i. rewrite N.ldiff_spec.
+  destruct (N.testbit c i) eqn:E; [|reflexivity]. now rewrite (sub12_bits c H i E).
+Qed.
+
+Lemma required_sub12 ty : sub12 (required_bits ty).
+Proof. unfold required_bits. destruct (ty =? TypeDir); [reflexivity|]. destruct (ty =? TypeSymlink); reflexivity. Qed.
+Lemma forbidden_sub12 ty : sub12 (forbidden_bits ty).
+Proof. unfold forbidden_bits. destruct (ty =? TypeSymlink); reflexivity. Qed.
+
+(* a mod= value applied to a usable default leaves a usable result outside the touched bits,
+   and inside them the result does not depend on the default *)
+Lemma absent_perms ms d ty : modspec_ok ms = true -> usable_outside 0 ty d = true ->
+  N.land (apply_mod ms d) (mod_touched ms) = N.land (apply_mod ms 0) (mod_touched ms)
+  /\ usable_outside (mod_touched ms) ty (apply_mod ms d) = true.
+Proof.
+  intros Hok Hu. destruct ms as [|dg|cs]; cbn [apply_mod mod_touched].
+  - split; [now rewrite !N.land_0_r|exact Hu].
+  - split; [reflexivity|]. unfold usable_outside.
+    rewrite (ldiff_sub12 _ (required_sub12 ty)), (ldiff_sub12 _ (forbidden_sub12 ty)). reflexivity.
+  - assert (Ht : forall i, N.testbit (touched cs) i = tb cs i).
+    { intros i. unfold touched. rewrite touched_bits. now rewrite N.bits_0. }
+    split.
+    + apply N.bits_inj. intros i. rewrite !N.land_spec, Ht.
+      destruct (tb cs i) eqn:E; [|now rewrite !andb_false_r].
+      now rewrite (chmod_touched cs d 0 i E).
+    + apply usable_bits in Hu as [U1 U2]. apply usable_bits. split; intros i Hr Hti; rewrite Ht in Hti.
+      * rewrite chmod_untouched by assumption. apply U1; [assumption|apply N.bits_0].
+      * rewrite chmod_untouched by assumption. apply U2; [assumption|apply N.bits_0].
+Qed.
+
+(* ---------- a member synthesised for an absent path ---------- *)
+Lemma absent_member c m now e :
+  member_wf m = true -> m_src (mc_member m) = SAbsent ->
+  Z.leb (c_t0 c) now = true -> Z.leb now (c_t1 c) = true ->
+  add_single (m_opts (mc_member m)) SAbsent now = ROk e ->
+  exists h, mk_header e = TOk h
+    /\ e_name e = p_name (m_opts (mc_member m))
+    /\ absent_ok c m h = true
+    /\ e_devino e = None /\ e_ltype e <> LHard
+    /\ p_skip (m_opts (mc_member m)) = false.
+Proof.
+  intros Hwf Hsrc Ht0 Ht1 Hadd. set (p := m_opts (mc_member m)) in *.
+  unfold member_wf in Hwf. fold p in Hwf. rewrite Hsrc in Hwf.
+  apply andb_true_iff in Hwf as [Hwf _]. apply andb_true_iff in Hwf as [Hwf Hdevr].
+  apply andb_true_iff in Hwf as [Hwf Hlegal].
+  apply andb_true_iff in Hwf as [Hwf Hnt]. apply andb_true_iff in Hwf as [Hwf Hsl].
+  apply andb_true_iff in Hwf as [Hwf Hnn]. apply andb_true_iff in Hwf as [Hmok Hmr].
+  destruct (mod_facts _ _ Hmok Hmr) as [_ Hperm].
+  unfold add_single in Hadd.
+  destruct (negb (line_ok p)); [discriminate|].
+  destruct (p_skip p) eqn:Esk; [discriminate|].
+  destruct (type_decision p false LNone false) as [t|] eqn:Etd; [|discriminate].
+  (* the clauses of absent_ok that do not depend on the entry type *)
+  assert (Hfin : forall h ty, absent_type p = ty -> h_type h = ty ->
+            usable_outside 0 ty (N.land (default_perms t) 4095) = true ->
+            h_mode h = perms_of p false 0 t -> h_uid h = uid_of p false zero_stat ->
+            h_gid h = gid_of p false zero_stat -> h_mtime h = now -> h_xattrs h = [] -> h_size h = 0 ->
+            h_data h = [] ->
+            (if ty =? TypeSymlink then beq (h_link h) (p_target p) else true) = true ->
+            match p_dev p with
+            | Some (_, ma, mi) => if (ty =? TypeChar) || (ty =? TypeBlock)
+                                  then (h_major h =? ma) && (h_minor h =? mi) else true
+            | None => true
+            end = true ->
+            absent_ok c m h = true).
+  { intros h ty Ety Hty Hus Hm Hu Hg Hmt Hx Hs Hd Hl Hdv. unfold absent_ok. fold p.
+    rewrite Ety, Hty, Hm, Hu, Hg, Hmt, Hx, Hs, Hd, Hl, Hdv, Ht0, Ht1, N.eqb_refl.
+    rewrite (Hperm false 0 t). cbn [is_nil andb].
+    destruct (absent_perms (mc_mod m) _ ty Hmok Hus) as [P1 P2]. rewrite P1, P2, N.eqb_refl.
+    unfold uid_of, gid_of, optN. change D_StageFileUID with 0. change D_StageFileGID with 0.
+    destruct (p_uid p), (p_gid p); now rewrite !N.eqb_refl. }
+  unfold type_decision, need_check in Etd. unfold finish in Hadd.
+  destruct (p_ltype p) eqn:Elt.
+  - discriminate.
+  - (* dir *) injection Etd as <-. injection Hadd as <-. eexists. split; [reflexivity|]. cbn.
+    split; [reflexivity|]. split; [|auto using eq_refl]. 2: { repeat split; discriminate. }
+    apply (Hfin _ TypeDir); try reflexivity.
+    + unfold absent_type. now rewrite Elt.
+    + destruct (p_dev p) as [[[? ?] ?]|]; reflexivity.
+  - (* file: there must be one *)
+    assert (t = LFile) as -> by (destruct (negb (p_hassrc p)); cbn in Etd; congruence).
+    discriminate.
+  - (* symlink with targ= *)
+    assert (t = LSym) as -> by (destruct (is_nil (p_target p)); cbn in Etd; congruence).
+    destruct (is_nil (p_target p)) eqn:Htg; [discriminate|]. injection Hadd as <-.
+    eexists. split; [reflexivity|]. cbn.
+    split; [reflexivity|]. split; [|repeat split; discriminate].
+    apply (Hfin _ TypeSymlink); try reflexivity.
+    + unfold absent_type. now rewrite Elt.
+    + cbn. apply beq_refl.
+    + destruct (p_dev p) as [[[? ?] ?]|]; reflexivity.
+  - discriminate.
+  - (* node with dev= *)
+    assert (t = LDev) as -> by (destruct (p_hassrc p || negb (has (p_dev p))); cbn in Etd; congruence).
+    destruct (p_dev p) as [[[isc ma] mi]|] eqn:Edev; [|discriminate]. injection Hadd as <-.
+    eexists. split; [reflexivity|]. cbn.
+    split; [reflexivity|]. split; [|repeat split; discriminate].
+    apply (Hfin _ (if isc then TypeChar else TypeBlock)); try reflexivity.
+    + unfold absent_type. now rewrite Elt, Edev.
+    + now destruct isc.
+    + now destruct isc.
+    + destruct isc; cbn; now rewrite !N.eqb_refl.
+Qed.
+
+(* ---------- an acceptable entry is not refused ---------- *)
+Lemma classify_none mode : classify mode = None -> obj_type mode = 0.
+Proof.
+  rewrite classify_k, obj_type_k. pose proof (tyrow_mode mode) as T. unfold tyrow in T.
+  intros E. rewrite E in T. now apply N.eqb_eq in T.
+Qed.
+
+Lemma accept_ok m now :
+  member_wf m = true -> acceptable m = true ->
+  (exists e, add_single (m_opts (mc_member m)) (m_src (mc_member m)) now = ROk e)
+  \/ add_single (m_opts (mc_member m)) (m_src (mc_member m)) now = RSkip.
+Proof.
+  intros Hwf Hacc. set (p := m_opts (mc_member m)) in *.
+  unfold member_wf in Hwf. fold p in Hwf.
+  apply andb_true_iff in Hwf as [Hwf Hobj]. apply andb_true_iff in Hwf as [Hwf Hdevr].
+  apply andb_true_iff in Hwf as [Hwf Hlegal].
+  apply andb_true_iff in Hwf as [Hwf Hnt]. apply andb_true_iff in Hwf as [Hwf Hsl].
+  apply andb_true_iff in Hwf as [Hwf Hnn]. apply andb_true_iff in Hwf as [Hmok Hmr].
+  destruct (mod_facts _ _ Hmok Hmr) as [Hmask _].
+  unfold acceptable in Hacc. fold p in Hacc.
+  apply andb_true_iff in Hacc as [Hacc Hsrc]. apply andb_true_iff in Hacc as [Hacc Hdv].
+  apply andb_true_iff in Hacc as [Hu Hg].
+  assert (Hline : line_ok p = true).
+  { unfold line_ok. apply andb_true_iff. split; [apply andb_true_iff; split; [apply andb_true_iff; split|]|].
+    - destruct (has (p_mod p)) eqn:E; [|reflexivity]. now rewrite (Hmask eq_refl).
+    - unfold uid_ok. destruct (p_uid p); assumption.
+    - unfold uid_ok. destruct (p_gid p); assumption.
+    - unfold dev_ok. destruct (p_dev p) as [[[? ma] mi]|]; [|reflexivity].
+      apply andb_true_iff in Hdv as [H1 H2]. apply N.ltb_lt in H1, H2.
+      apply andb_true_iff. split; apply N.ltb_lt; lia. }
+  unfold add_single. rewrite Hline. cbn [negb].
+  destruct (m_src (mc_member m)) as [| |o] eqn:Esrc.
+  - (* absent *)
+    destruct (p_skip p) eqn:Esk; [now right|]. left. cbn [orb] in Hsrc.
+    unfold type_decision, need_check, finish.
+    destruct (p_ltype p) eqn:Elt; try discriminate.
+    + eexists. reflexivity.
+    + apply negb_true_iff in Hsrc. rewrite Hsrc. cbn. eexists. reflexivity.
+    + apply andb_true_iff in Hlegal as [Htarg Hlegal].
+      destruct (p_dev p) as [[[isc ma] mi]|] eqn:Edev; [|discriminate].
+      cbn in Hlegal. apply negb_true_iff in Hlegal. rewrite Hlegal. cbn. eexists. reflexivity.
+  - discriminate.
+  - (* present *)
+    left. apply andb_true_iff in Hobj as [Hobj Hagree].
+    unfold object_ok in Hobj.
+    apply andb_true_iff in Hobj as [Hobj Hlk]. apply andb_true_iff in Hobj as [Hobj Hd0].
+    apply andb_true_iff in Hobj as [Hobj Hdl]. apply andb_true_iff in Hobj as [Hobj Hxn].
+    apply andb_true_iff in Hobj as [Hobj Hxd]. apply andb_true_iff in Hobj as [Hobj Hxs].
+    rewrite (xattrs_complete _ (xattrs_wf_of_bool _ Hxd Hxn)).
+    apply negb_true_iff, N.eqb_neq in Hsrc.
+    destruct (classify (st_mode (o_st o))) as [[actual pending]|] eqn:Ecl;
+      [|apply classify_none in Ecl; contradiction].
+    apply classify_obj in Ecl.
+    assert (Hp : pending = false) by (destruct actual, pending; try contradiction; auto).
+    subst pending.
+    unfold type_decision, need_check.
+    destruct (p_ltype p) eqn:Elt.
+    + (* tbd *) cbn [negb]. unfold finish. cbn [o_st].
+      apply andb_true_iff in Hlegal as [Hlegal Htarg]. apply andb_true_iff in Hlegal as [Hlegal Hnodev].
+      destruct (p_dev p) eqn:Edev; [discriminate|].
+      destruct actual; try contradiction; try (eexists; reflexivity).
+      * rewrite Htarg, readlink_complete. eexists. reflexivity.
+      * destruct Ecl as [[_ Ef]|[_ Ef]]; rewrite Ef; cbn; eexists; reflexivity.
+    + eexists. reflexivity.
+    + apply N.eqb_eq in Hagree.
+      assert (actual = LFile) as -> by (destruct actual; try contradiction; try reflexivity;
+        try (rewrite Ecl in Hagree; discriminate); destruct Ecl as [[E _]|[E _]]; rewrite E in Hagree; discriminate).
+      destruct (negb (p_hassrc p)); cbn; eexists; reflexivity.
+    + apply N.eqb_eq in Hagree.
+      assert (actual = LSym) as -> by (destruct actual; try contradiction; try reflexivity;
+        try (rewrite Ecl in Hagree; discriminate); destruct Ecl as [[E _]|[E _]]; rewrite E in Hagree; discriminate).
+      unfold finish. rewrite readlink_complete.
+      destruct (is_nil (p_target p)) eqn:Htg; cbn; eexists; reflexivity.
+    + discriminate.
+    + assert (actual = LDev) as ->.
+      { apply orb_true_iff in Hagree. destruct actual; try contradiction; try reflexivity;
+          rewrite Ecl in Hagree; destruct Hagree; discriminate. }
+      assert (Etd : (if p_hassrc p || negb (has (p_dev p))
+                     then if true && negb (ltype_eqb LDev LDev) then None else Some LDev
+                     else Some LDev) = Some LDev) by (destruct (p_hassrc p || negb (has (p_dev p))); reflexivity).
+      cbn [andb negb] in Etd |- *. rewrite Etd. unfold finish. cbn [o_st].
+      destruct (p_dev p) as [[[isc ma] mi]|]; [eexists; reflexivity|].
+      destruct Ecl as [[_ Ef]|[_ Ef]]; rewrite Ef; cbn; eexists; reflexivity.
+Qed.
+
+(* ---------- the whole run ---------- *)
+Lemma finish_not_skip p t ob mt xa g u pm : finish p t ob mt xa g u pm <> RSkip.
+Proof.
+  unfold finish. destruct t; try discriminate.
+  - destruct ob; discriminate.
+  - destruct (is_nil (p_target p)); [|discriminate]. destruct ob; [|discriminate].
+    destruct (fs_readlink (o_link o)); discriminate.
+  - destruct (p_dev p) as [[[? ?] ?]|]; [discriminate|]. destruct ob; [|discriminate].
+    destruct (N.land (st_mode (o_st o)) S_IFMT =? S_IFCHR); [discriminate|].
+    destruct (N.land (st_mode (o_st o)) S_IFMT =? S_IFBLK); discriminate.
+Qed.
+
+Lemma skip_inv p s now : add_single p s now = RSkip -> s = SAbsent /\ p_skip p = true.
+Proof.
+  unfold add_single. destruct (negb (line_ok p)); [discriminate|]. destruct s as [| |o].
+  - destruct (p_skip p); [auto|]. destruct (type_decision p false LNone false); [|discriminate].
+    intros H. now apply finish_not_skip in H.
+  - discriminate.
+  - destruct (classify (st_mode (o_st o))) as [[a b]|]; [|discriminate].
+    destruct (type_decision p true a b); [|discriminate].
+    destruct (get_xattrs (o_xattrs o)); try discriminate.
+    intros H. now apply finish_not_skip in H.
+Qed.
+
+Lemma add_all_not_skip ms : add_all ms <> RSkip.
+Proof.
+  induction ms as [|m r IH]; [discriminate|]. cbn [add_all].
+  destruct (add_single (m_opts m) (m_src m) (m_now m)), (add_all r); try discriminate; congruence.
+Qed.
+
+Lemma add_all_ok_inv m r es : add_all (m :: r) = ROk es ->
+  exists l, add_all r = ROk l /\
+    ((exists e, add_single (m_opts m) (m_src m) (m_now m) = ROk e /\ es = Some e :: l)
+     \/ (add_single (m_opts m) (m_src m) (m_now m) = RSkip /\ es = None :: l)).
+Proof.
+  cbn [add_all]. destruct (add_single (m_opts m) (m_src m) (m_now m)) eqn:E1, (add_all r) eqn:E2;
+    try discriminate; intros H; injection H as <-; eexists; split; eauto.
+Qed.
+
+Lemma add_all_err_inv ms : add_all ms = RErr -> exists m, In m ms /\ add_single (m_opts m) (m_src m) (m_now m) = RErr.
+Proof.
+  induction ms as [|m r IH]; [discriminate|]. cbn [add_all].
+  destruct (add_single (m_opts m) (m_src m) (m_now m)) eqn:E1.
+  - destruct (add_all r) eqn:E2; try discriminate; intros _.
+    + now apply add_all_not_skip in E2.
+    + destruct (IH eq_refl) as (x & Hx & Ex). exists x. split; [now right|assumption].
+  - destruct (add_all r) eqn:E2; try discriminate; intros _.
+    + now apply add_all_not_skip in E2.
+    + destruct (IH eq_refl) as (x & Hx & Ex). exists x. split; [now right|assumption].
+  - intros _. exists m. split; [now left|assumption].
+  - discriminate.
+Qed.
+
+Lemma add_all_div_inv ms : add_all ms = RDiverge ->
+  exists m, In m ms /\ add_single (m_opts m) (m_src m) (m_now m) = RDiverge.
+Proof.
+  induction ms as [|m r IH]; [discriminate|]. cbn [add_all].
+  destruct (add_single (m_opts m) (m_src m) (m_now m)) eqn:E1.
+  - destruct (add_all r) eqn:E2; try discriminate; intros _.
+    destruct (IH eq_refl) as (x & Hx & Ex). exists x. split; [now right|assumption].
+  - destruct (add_all r) eqn:E2; try discriminate; intros _.
+    destruct (IH eq_refl) as (x & Hx & Ex). exists x. split; [now right|assumption].
+  - destruct (add_all r) eqn:E2; try discriminate; intros _.
+    destruct (IH eq_refl) as (x & Hx & Ex). exists x. split; [now right|assumption].
+  - intros _. exists m. split; [now left|assumption].
+Qed.
+
+(* no well-formed member makes the buffer loops run out of fuel *)
+Lemma wf_no_diverge m now : member_wf m = true ->
+  add_single (m_opts (mc_member m)) (m_src (mc_member m)) now <> RDiverge.
+Proof.
+  intros Hwf. unfold add_single. destruct (negb (line_ok _)); [discriminate|].
+  destruct (m_src (mc_member m)) as [| |o] eqn:Esrc.
+  - destruct (p_skip _); [discriminate|]. destruct (type_decision _ false LNone false) as [t|]; [|discriminate].
+    unfold finish. destruct t; try discriminate.
+    + destruct (is_nil _); discriminate.
+    + destruct (p_dev _) as [[[? ?] ?]|]; discriminate.
+  - discriminate.
+  - unfold member_wf in Hwf. rewrite Esrc in Hwf. apply andb_true_iff in Hwf as [_ Hobj].
+    apply andb_true_iff in Hobj as [Hobj _]. unfold object_ok in Hobj.
+    apply andb_true_iff in Hobj as [Hobj _]. apply andb_true_iff in Hobj as [Hobj _].
+    apply andb_true_iff in Hobj as [Hobj _]. apply andb_true_iff in Hobj as [Hobj Hxn].
+    apply andb_true_iff in Hobj as [Hobj Hxd].
+    rewrite (xattrs_complete _ (xattrs_wf_of_bool _ Hxd Hxn)).
+    destruct (classify _) as [[a b]|]; [|discriminate]. destruct (type_decision _ true a b) as [t|]; [|discriminate].
+    unfold finish. rewrite readlink_complete. destruct t; try discriminate.
+    + destruct (is_nil _); discriminate.
+    + destruct (p_dev _) as [[[? ?] ?]|]; [discriminate|].
+      destruct (_ =? S_IFCHR); [discriminate|]. destruct (_ =? S_IFBLK); discriminate.
+Qed.
+
+(* the hard-link table of fixHardlinks against the members already written *)
+Local Open Scope list_scope.
+Definition inv (seen : list (N * bytes)) (prev : list (mcase * header)) : Prop :=
+  forall g n, In (g, n) seen ->
+    starts_with_slash n = true /\
+    exists m h o, In (m, h) prev /\ h_name h = dot :: n /\ h_type h = TypeReg
+      /\ m_src (mc_member m) = SPresent o /\ st_id (o_st o) = g
+      /\ p_hassrc (m_opts (mc_member m)) = false.
+
+Lemma inv_mono seen prev x : inv seen prev -> inv seen (prev ++ [x]).
+Proof.
+  intros H g n Hin. destruct (H g n Hin) as (Hs & m & h & o & Hp & R). split; [assumption|].
+  exists m, h, o. split; [apply in_or_app; now left|assumption].
+Qed.
+
+Lemma group_first_in g seen tg : group_first g seen = Some tg -> In (g, tg) seen.
+Proof.
+  induction seen as [|[g' n] r IH]; [discriminate|]. cbn [group_first].
+  destruct (g' =? g) eqn:E.
+  - intros H. injection H as <-. apply N.eqb_eq in E. subst. now left.
+  - intros H. right. now apply IH.
+Qed.
+
+Lemma linked_ok_of_inv seen prev g tg : inv seen prev -> In (g, tg) seen ->
+  linked_ok prev g (dot :: tg) = true.
+Proof.
+  intros Hinv Hin. destruct (Hinv g tg Hin) as (_ & m & h & o & Hp & Hn & Ht & Hs & Hid & Hsrc).
+  unfold linked_ok. apply existsb_exists. exists (m, h). split; [assumption|].
+  rewrite Hn, Ht, Hs, Hid, Hsrc, beq_refl, !N.eqb_refl. reflexivity.
+Qed.
+
+Lemma mk_header_hardlink e tg : starts_with_slash tg = true ->
+  mk_header (as_hardlink e tg) =
+  TOk (MkHdr (dot :: e_name e) TypeLink (e_perms e) (e_uid e) (e_gid e) (e_mtime e) (e_fsize e)
+             (dot :: tg) 0 0 (match e_xattrs e with Some l => l | None => [] end) []).
+Proof.
+  intros H. unfold mk_header, as_hardlink. cbn. destruct tg as [|c r]; [discriminate|].
+  cbn in H. now rewrite H.
+Qed.
+
+Definition member_pre (c : case) (m : mcase) : Prop :=
+  member_wf m = true /\ Z.leb (c_t0 c) (m_now (mc_member m)) = true /\ Z.leb (m_now (mc_member m)) (c_t1 c) = true.
+
+Lemma run_members_ok c : forall ms es seen prev,
+  Forall (member_pre c) ms ->
+  add_all (map mc_member ms) = ROk es ->
+  inv seen prev ->
+  exists hs, headers (fix_hardlinks seen es) = Some hs /\ members_ok c prev ms hs = true.
+Proof.
+  induction ms as [|m ms IH]; intros es seen prev Hpre Hadd Hinv.
+  - cbn in Hadd. injection Hadd as <-. exists []. split; reflexivity.
+  - inversion Hpre as [|? ? [Hwf [Ht0 Ht1]] Hpre']; subst.
+    cbn [map] in Hadd. apply add_all_ok_inv in Hadd as (l & Hl & [(e & He & ->)|(Hsk & ->)]).
+    + (* the entry is written *)
+      destruct (m_src (mc_member m)) as [| |o] eqn:Esrc.
+      * (* synthesised *)
+        destruct (absent_member c m _ e Hwf Esrc Ht0 Ht1 He) as (h & Hh & Hn & Hok & Hdi & _ & Hns).
+        cbn [fix_hardlinks]. rewrite Hdi.
+        destruct (IH l seen (prev ++ [(m, h)]) Hpre' Hl (inv_mono _ _ _ Hinv)) as (hs & Hhs & Hms).
+        exists (Some h :: hs). split; [cbn [headers]; now rewrite Hh, Hhs|].
+        cbn [members_ok]. rewrite Hms, andb_true_r.
+        unfold may_skip. rewrite Hns. cbn [andb negb].
+        unfold member_ok. rewrite Esrc, Hok, andb_true_r.
+        destruct (mk_header_fields _ _ Hh) as (Hname & _). rewrite Hname, Hn. apply beq_refl.
+      * (* lstat failed: the entry is refused *)
+        exfalso. unfold add_single in He. destruct (negb (line_ok _)); discriminate.
+      * (* taken from an object *)
+        destruct (present_member m o _ e Hwf Esrc He) as (h & Hh & Hn & Hty & Hco & Hki & Hnh & Hdev).
+        destruct (mk_header_fields _ _ Hh) as (Hname & Hmode & Huid & Hgid & Hmt & Hxa & Hsz).
+        assert (Hskip : may_skip m = false) by (unfold may_skip; rewrite Esrc; apply andb_false_r).
+        assert (Hslash : starts_with_slash (p_name (m_opts (mc_member m))) = true).
+        { pose proof Hwf as W. unfold member_wf in W.
+          apply andb_true_iff in W as [W _]. apply andb_true_iff in W as [W _].
+          apply andb_true_iff in W as [W _]. apply andb_true_iff in W as [W _].
+          now apply andb_true_iff in W as [_ W]. }
+        cbn [fix_hardlinks]. destruct (e_devino e) as [g|] eqn:Edi.
+        -- destruct (Hdev g eq_refl) as (Hg & Hnl & Hreg & Hsrc). subst g.
+           destruct (group_first (st_id (o_st o)) seen) as [tg|] eqn:Egf.
+           ++ (* a later member of an inode group: hard link to the first *)
+              pose proof (group_first_in _ _ _ Egf) as Hin.
+              destruct (Hinv _ _ Hin) as (Hsl & _).
+              set (h' := MkHdr (dot :: e_name e) TypeLink (e_perms e) (e_uid e) (e_gid e) (e_mtime e) (e_fsize e)
+                               (dot :: tg) 0 0 (match e_xattrs e with Some l0 => l0 | None => [] end) []).
+              destruct (IH l seen (prev ++ [(m, h')]) Hpre' Hl (inv_mono _ _ _ Hinv)) as (hs & Hhs & Hms).
+              exists (Some h' :: hs). split.
+              { cbn [headers]. rewrite (mk_header_hardlink e tg Hsl). fold h'. now rewrite Hhs. }
+              cbn [members_ok]. rewrite Hms, Hskip, andb_true_r. cbn [negb andb].
+              unfold member_ok. rewrite Esrc. apply andb_true_iff. split; [cbn; rewrite Hn; apply beq_refl|].
+              apply andb_true_iff. split.
+              ** unfold type_ok. rewrite <- Hty, Hreg, Hnl. cbn [h_type h_link h'].
+                 rewrite (linked_ok_of_inv seen prev _ tg Hinv Hin). reflexivity.
+              ** unfold present_fields_ok. rewrite (kind_ok_link _ o h' eq_refl), andb_true_r.
+                 rewrite (common_ok_ext m o h h'); [assumption|cbn; congruence..].
+           ++ (* the first member of its inode group *)
+              assert (Hinv' : inv (seen ++ [(st_id (o_st o), e_name e)]) (prev ++ [(m, h)])).
+              { intros g n Hin. apply in_app_or in Hin as [Hin|[Hin|[]]].
+                - exact (inv_mono seen prev (m, h) Hinv g n Hin).
+                - injection Hin as <- <-. split; [now rewrite Hn|].
+                  exists m, h, o. split; [apply in_or_app; right; now left|]. auto. }
+              destruct (IH l _ _ Hpre' Hl Hinv') as (hs & Hhs & Hms).
+              exists (Some h :: hs). split; [cbn [headers]; now rewrite Hh, Hhs|].
+              cbn [members_ok]. rewrite Hms, Hskip, andb_true_r. cbn [negb andb].
+              unfold member_ok. rewrite Esrc, Hname, Hn, beq_refl. cbn [andb].
+              unfold type_ok, present_fields_ok. rewrite Hty, N.eqb_refl, Hco, Hki. reflexivity.
+        -- destruct (IH l seen (prev ++ [(m, h)]) Hpre' Hl (inv_mono _ _ _ Hinv)) as (hs & Hhs & Hms).
+           exists (Some h :: hs). split; [cbn [headers]; now rewrite Hh, Hhs|].
+           cbn [members_ok]. rewrite Hms, Hskip, andb_true_r. cbn [negb andb].
+           unfold member_ok. rewrite Esrc, Hname, Hn, beq_refl. cbn [andb].
+           unfold type_ok, present_fields_ok. rewrite Hty, N.eqb_refl, Hco, Hki. reflexivity.
+    + (* the entry is skipped *)
+      apply skip_inv in Hsk as [Hs Hp].
+      destruct (IH l seen prev Hpre' Hl Hinv) as (hs & Hhs & Hms).
+      exists (None :: hs). split; [cbn [fix_hardlinks headers]; now rewrite Hhs|].
+      cbn [members_ok]. rewrite Hms, andb_true_r. unfold may_skip.
+      change (m_opts (mc_member m)) with (m_opts (mc_member m)) in Hp.
+      cbn [mc_member] in *. rewrite Hp, Hs. reflexivity.
+Qed.
+
+Lemma wf_members_pre c : wf c = true -> Forall (member_pre c) (c_members c).
+Proof.
+  unfold wf. intros H. apply andb_true_iff in H as [H _]. apply andb_true_iff in H as [H Hwin].
+  apply andb_true_iff in H as [H _]. apply andb_true_iff in H as [Hm _].
+  apply Forall_forall. intros m Hin. rewrite forallb_forall in Hm, Hwin.
+  specialize (Hm m Hin). specialize (Hwin m Hin). apply andb_true_iff in Hwin as [W0 W1].
+  now repeat split.
+Qed.
+
+Theorem C07_holds_proof : forall c, wf c = true -> kf c = 0 -> spec c (model c) = true.
+Proof.
+  intros c Hwf _. pose proof (wf_members_pre c Hwf) as Hpre.
+  unfold spec, model. cbn [fst snd].
+  apply andb_true_iff. split; [apply andb_true_iff; split|].
+  - unfold run. destruct (add_all (map mc_member (c_members c))) as [es| | |] eqn:Ea.
+    + destruct (run_members_ok c (c_members c) es [] [] Hpre Ea) as (hs & Hhs & Hms).
+      { intros g n []. }
+      now rewrite Hhs.
+    + now apply add_all_not_skip in Ea.
+    + (* refused: some member is not acceptable *)
+      apply add_all_err_inv in Ea as (x & Hx & Ex). apply in_map_iff in Hx as (m & <- & Hm).
+      apply negb_true_iff. destruct (forallb acceptable (c_members c)) eqn:Ef; [|reflexivity].
+      rewrite forallb_forall in Ef. specialize (Ef m Hm).
+      rewrite Forall_forall in Hpre. destruct (Hpre m Hm) as [Hw _].
+      destruct (accept_ok m (m_now (mc_member m)) Hw Ef) as [[e He]|He]; congruence.
+    + apply add_all_div_inv in Ea as (x & Hx & Ex). apply in_map_iff in Hx as (m & <- & Hm).
+      rewrite Forall_forall in Hpre. destruct (Hpre m Hm) as [Hw _].
+      now apply wf_no_diverge in Ex.
+  - clear. induction (c_comp c) as [|x r IH]; [reflexivity|]. cbn. assumption.
+  - clear. induction (c_comp c) as [|x r IH]; [reflexivity|]. cbn. now rewrite N.eqb_refl.
+Qed.
